@@ -141,9 +141,6 @@ class _ReadSourceGenerator:
 
         def flush() -> Iterator[str]:
             if current_block:
-                if self.align and current_block[0].offset is None:
-                    yield f"stream.seek(-stream.tell() & ({current_block[0].alignment} - 1), {io.SEEK_CUR})"
-
                 yield from self._generate_packed(current_block)
                 current_block[:] = []
 
@@ -212,6 +209,9 @@ class _ReadSourceGenerator:
 
             # Everything else - basic and composite types (and arrays of them)
             else:
+                if not current_block:
+                    # A block starts at its first field's offset, which may lie beyond the end of the previous field
+                    yield from align_to_field(field)
                 current_block.append(field)
 
             if current_offset is not None and size is not None and (not field.bits or bits_rollover):
